@@ -222,6 +222,8 @@ def canon_constructions(chk, cfg):
 
 def extent_ok(p, x):
     KB = canon(mul(K, BITS))
+    if x[0] == "bits" and x[1][0] == "seqview":
+        x = ("bits", x[1][1])
     if x[0] == "bslice" and x[2] == canon(c(0)) and x[3] == KB:
         return True, "extent [0, K*BITS)"
     if x[0] == "bits":
@@ -265,54 +267,134 @@ def width2(chk, cfg):
         bad = [i for i in range(256) if tbl[i] != rev2(i)]
         chk.ob("I-width2/table", "REV_2BIT", len(tbl) == 256 and not bad, "REV_2BIT is not the 2-bit-block reversal at %s" % bad[:4], evals=256)
         n += 1
-    # primitives: bodies that index REV_2BIT
+    # primitives: bodies that index REV_2BIT, and everything that reaches them through the call graph
     prims = set()
     for b in bio.bodies:
         for bl in b["blocks"]:
             for s in bl["stmts"]:
                 if s["k"] == "assign" and "REV_2BIT" in str(s["rv"]):
-                    prims.add(b["path"])
-    chk.floor("2-bit primitives[%s]" % cfg.name, len(prims), 3)
-    # callers (through private wrappers) of the trait method rev_blocks_2
-    PRIM = re.compile(r"KmerStorage>::rev_blocks_2$|KmerStorage for (usize|u64|u128)>::rev_blocks_2$")
+                    prims.add(b["id"])
+    chk.floor("2-bit primitives[%s]" % cfg.name, len(prims), 1)
+    by_path = {}
     for b in bio.bodies:
-        if b["kind"] not in ("AssocFn", "Fn") or not b["vis"].startswith("Public") or b["path"] in prims:
-            continue
-        txt = str(b["blocks"])
-        if "rev_blocks_2" not in txt:
-            continue
+        by_path.setdefault(b["path"], []).append(b)
+    # trait methods implemented by a primitive (e.g. KmerStorage::rev_blocks_2): unresolved calls to them count
+    def callees(b):
+        out = set()
+        for bl in b["blocks"]:
+            if bl["cleanup"]:
+                continue
+            t = bl["term"]
+            if t["k"] != "call" or "indirect" in t["func"]:
+                continue
+            f = t["func"]
+            if f.get("resolved_local") and f.get("resolved") in by_path:
+                for x in by_path[f["resolved"]]:
+                    if len(by_path[f["resolved"]]) == 1 or (x.get("impl") or {}).get("self_ty") == f.get("resolved_impl_self"):
+                        out.add(x["id"])
+            elif f.get("trait"):
+                m = f["def"].split("::")[-1]
+                for x in bio.bodies:
+                    if (x.get("impl") or {}).get("trait") == f["trait"] and x["path"].endswith("::" + m):
+                        out.add(x["id"])
+        return out
+    cg = {b["id"]: callees(b) for b in bio.bodies}
+    by_id = {b["id"]: b for b in bio.bodies}
+    U = set(prims)          # bodies from which a 2-bit primitive is reached on a path without a width test
+    state = {"U": U}
+
+    class Pol(an.SeqPolicy):
+        def inline(self, callee, body, depth):
+            if body["id"] in state["U"]:
+                return False
+            return an.SeqPolicy.inline(self, callee, body, depth)
+
+    def is_prim_call(y):
+        f = y[3].callee
+        if "indirect" in f:
+            return False
+        if f.get("resolved_local") and f.get("resolved") in by_path:
+            return any(x["id"] in state["U"] for x in by_path[f["resolved"]])
+        if f.get("trait"):
+            m = f["def"].split("::")[-1]
+            return any((x.get("impl") or {}).get("trait") == f["trait"] and x["path"].endswith("::" + m) and x["id"] in state["U"] for x in bio.bodies)
+        return False
+    PRIMCALL = is_prim_call
+    done = set()
+    boundary = []
+    changed = True
+    while changed:
+        changed = False
+        for b in bio.bodies:
+            if b["id"] in U or b["id"] in done or b["kind"] not in ("AssocFn", "Fn", "Closure") or not (cg[b["id"]] & U):
+                continue
+            imp = b.get("impl") or {}
+            paths, _ = an.analyse(cfg, b, policy=Pol())
+            unguarded = []
+            for p in paths:
+                if not any(PRIMCALL(y) for y in p.calls):
+                    continue
+                concrete2 = False
+                m = re.search(r"kmer::Kmer<(codec::[a-z_:]+::[A-Za-z]+),", imp.get("self_ty") or "")
+                if m:
+                    v = bio.const_val("<%s as codec::Codec>::BITS" % m.group(1))
+                    concrete2 = v is not None and int(v) == 2
+                guarded = any(g[0] == "cmp" and g[2] == "Eq" and nf.pkey(nf.padd(nf.poly(("ac", "<A as codec::Codec>::BITS", ("A",))), nf.poly(I(2, "u8")), -1)) in (g[1], tuple((m_, -c_) for m_, c_ in g[1]))
+                              for g in p.guards)
+                if not (concrete2 or guarded):
+                    unguarded.append(p)
+            private = not (b["vis"].startswith("Public") or imp.get("trait")) or imp.get("trait") == "kmer::sealed::KmerStorage"
+            done.add(b["id"])
+            if unguarded and private:
+                U.add(b["id"])      # a helper: its callers are judged instead
+                done.discard(b["id"])
+                changed = True
+                continue
+            boundary.append((b, paths))
+            chk.ob("I-width2", b["path"], not unguarded,
+                   "reaches the 2-bit block reversal for a codec that is not known to be 2 bits wide on this path (guards: %s)" % (
+                       gshow(gset(unguarded[0].guards)) if unguarded else ""), b["span"],
+                   kind="width-specific-primitive", sample={"caller": b["path"], "primitive_paths_guarded": True})
+    for b, paths in boundary:
         imp = b.get("impl") or {}
-        paths, _ = an.analyse(cfg, b)
         hit = False
         for p in paths:
-            if not any(PRIM.search(y[0]) for y in p.calls):
+            if not any(PRIMCALL(y) for y in p.calls):
                 continue
             hit = True
-            concrete2 = False
-            m = re.search(r"kmer::Kmer<(codec::[a-z_:]+::[A-Za-z]+),", imp.get("self_ty") or "")
-            if m:
-                v = bio.const_val("<%s as codec::Codec>::BITS" % m.group(1))
-                concrete2 = v is not None and int(v) == 2
-            guarded = any(g[0] == "cmp" and g[2] == "Eq" and nf.pkey(nf.padd(nf.poly(("ac", "<A as codec::Codec>::BITS", ("A",))), nf.poly(I(2, "u8")), -1)) in (g[1], tuple((m_, -c_) for m_, c_ in g[1]))
-                          for g in p.guards)
-            chk.ob("I-width2", b["path"], concrete2 or guarded,
-                   "reaches the 2-bit block reversal for a codec that is not known to be 2 bits wide on this path (guards: %s)" % gshow(gset(p.guards)), b["span"],
-                   kind="width-specific-primitive", sample={"caller": b["path"], "guards": gshow(gset(p.guards))})
             # R23: block reversal is followed by the shift that right-aligns the K symbols
             sh = [y for y in p.calls if short(y[0]) == "shiftr"]
             want = canon(sub(("ac", "<S as kmer::sealed::KmerStorage>::BITS", ("S",)), mul(BITS, K)))
             want64 = canon(sub(c(64), mul(BITS, K)))
+            wantu = canon(sub(("ac", "<usize as kmer::sealed::KmerStorage>::BITS", ()), mul(BITS, K)))
             okr = len(sh) == 1 and sh[0][1][0] == F(P(1), "bs")
             if okr:
                 a = sh[0][1][1]
                 a = a[2] if a[0] == "cast" else a
-                okr = canon(a) in (want, want64)
+                okr = canon(a) in (want, want64, wantu)
+            if not sh:
+                # the shift lives in an uninlined private helper on the way to the primitive: judge it there (found through the call, not by name)
+                for y in p.calls:
+                    f = y[3].callee
+                    if PRIMCALL(y) and "indirect" not in f and f.get("resolved_local") and f.get("resolved") in by_path:
+                        for hb in by_path[f["resolved"]]:
+                            if (hb.get("impl") or {}).get("trait") == "kmer::sealed::KmerStorage":
+                                continue
+                            hp, _ = an.analyse(cfg, hb, policy=an.NoInline())
+                            hr = [q for q in hp if q.end == "return"]
+                            if len(hr) == 1:
+                                sh = [z for z in hr[0].calls if short(z[0]) == "shiftr"]
+                                okr = len(sh) == 1 and sh[0][1][0] == F(P(1), "bs")
+                                if okr:
+                                    a = sh[0][1][1]
+                                    a = a[2] if a[0] == "cast" else a
+                                    okr = canon(a) in (want, want64, wantu)
             chk.ob("R23", b["path"], okr, "after rev_blocks_2 the storage must be shifted right by S::BITS - K*BITS; got %s" % [(short(y[0]), [show(a) for a in y[1]]) for y in sh], b["span"])
         if hit:
             n += 1
             # the other paths (non-2-bit) must be the generic reversal on the content extent
             if (imp.get("trait") == "ReverseMut"):
-                other = lambda p: not any(PRIM.search(y[0]) for y in p.calls)
+                other = lambda p: not any(PRIMCALL(y) for y in p.calls)
                 gen = [p for p in paths if other(p)]
                 if gen:
                     arrs = [y for y in gen[0].calls if TO_BA.search(y[0])]
